@@ -1021,10 +1021,19 @@ func (e *Engine) substr(st *State, s, lo, hi T) Value {
 		r = e.nameAlways("sub", r)
 		e.strIDs = append(e.strIDs, r)
 		e.assume(st, Eq(e.slen(r), Sub(hi, lo)), "substring length")
-		e.nsym++
-		v := fmt.Sprintf("k!%d", e.nsym)
-		k := T{v, SInt}
-		e.assume(st, Forall([]string{v}, Implies(And(Le(I(0), k), Lt(k, Sub(hi, lo))), Eq(e.sbyte(r, k), e.sbyte(s, Add(lo, k))))), "substring bytes")
+		if nv, ok := constInt(Sub(hi, lo)); ok && nv >= 0 && nv <= 128 {
+			var fs []T
+			for i := int64(0); i < nv; i++ {
+				fs = append(fs, Eq(e.sbyte(r, I(i)), e.sbyte(s, Add(lo, I(i)))))
+			}
+			e.assume(st, And(fs...), "substring bytes")
+			e.strLens[r.s] = nv
+		} else {
+			e.nsym++
+			v := fmt.Sprintf("k!%d", e.nsym)
+			k := T{v, SInt}
+			e.assume(st, Forall([]string{v}, Implies(And(Le(I(0), k), Lt(k, Sub(hi, lo))), Eq(e.sbyte(r, k), e.sbyte(s, Add(lo, k))))), "substring bytes")
+		}
 	}
 	return StrV{r}
 }
